@@ -258,6 +258,8 @@ ThreadsIsolated == [][\A t \in Thr : stack'[t] # stack[t] => actor' = t]_vars
 View == <<ents, stack, nrem, devUsed, lastop>>
 \* ops/nid/actor are functions of the path, not of the abstract state: kept out of the fingerprint
 ViewState == <<ents, stack, nrem, devUsed>>
+\* witness runs look at the ghosts: they must be part of the fingerprint there
+ViewW == <<ents, stack, nrem, devUsed, lastop, ls>>
 EmitAll == (hist # <<>>) => PrintT(<<"BEH", ToJson(hist)>>)
 EmitDone == (lastop = <<"finish">>) => PrintT(<<"BEH", ToJson(hist)>>)
 W(c) == c => (PrintT(<<"BEH", ToJson(hist)>>) /\ FALSE)
